@@ -102,6 +102,7 @@ def run_case(prog) -> tuple[bool, list[str]]:
     m = compare(a, m, 0, "source", True)
     nt_a = False
     nt_b = False
+    earlier: list = []
     for i, op in enumerate(prog["ops"], 1):
         try:
             scale_in = float(np.nanmax(np.abs(m.M))) if m.M.size and np.isfinite(m.M).any() else 1.0
@@ -121,6 +122,7 @@ def run_case(prog) -> tuple[bool, list[str]]:
             classes.add("nan_in_xarray_program_stopped")
             break
         m = compare(a, m, i, op, "order_unspecified" not in tags)
+        earlier.append((a, m.copy(), i, op, "order_unspecified" not in tags))
         if prog["src"]["xr"] and np.isnan(m.M).any():
             # xarray reductions skip NaN by default (recorded as known finding F32 under C15): once a NaN exists the NumPy model is
             # no longer the reference for xarray internals -- the program ends here
@@ -130,6 +132,12 @@ def run_case(prog) -> tuple[bool, list[str]]:
             nt_a = True
         if "new_dim_not_last" in tags:
             nt_b = True
+    # what an action denotes does not depend on what was built from it, or next to it, afterwards: every intermediate action of the
+    # program is evaluated once more now that the whole program has been built
+    if len(earlier) >= 2:
+        for (a_k, m_k, i_k, op_k, strict_k) in earlier[:-1]:
+            compare(a_k, m_k, f"{i_k} (re-evaluated after the later steps)", op_k, strict_k)
+        classes.add("earlier_actions_re_evaluated")
     if prog["src"]["xr"]:
         classes.add("xr_internal")
     nt = len(prog["ops"]) >= 2 and (nt_a or nt_b)
